@@ -576,6 +576,7 @@ def run(tier, seed):
     delivery_obligations(ck, G, ex, st, ctx, A, names, hostcb)
     from checks import facade
     facade.obligations(ck, 'apbp')
+    facade.obligations(ck, 'callbacks')
     # ---- re-entrancy: a host callback is never invoked while a non-recursive mutex is held
     for entry, cbname, held in allcb:
         bad = [h for h in held if 'semaphore_mutex' not in h]
